@@ -348,8 +348,13 @@ def _sort_dependencies(
 
         else:
             if last_name == dependency.name:
-                order.append(last_name)
-                break
+                # Every other element has been sorted, so the remaining
+                # requirements can only be provided by the element itself
+                raise CircularDependencyError(
+                    missing={
+                        dependency.name: dependency.required.difference(available)
+                    }
+                )
             queue.put(dependency)
             last_name = dependency.name
         i += 1
